@@ -5,6 +5,7 @@ package sjobs
 
 import (
 	"fmt"
+	"reflect"
 	"strings"
 
 	"github.com/xjslang/xjs/ast"
@@ -19,6 +20,18 @@ import (
 type Scenario struct {
 	Name string
 	Make func() []func() string
+}
+
+// ctxMark records what the parser answered about its context when the statement was parsed.
+type ctxMark struct {
+	ctx   int
+	inFn  bool
+	inner ast.Statement
+}
+
+func (m *ctxMark) WriteTo(cw *ast.CodeWriter) {
+	cw.WriteString(fmt.Sprintf("[ctx%d,%v]", m.ctx, m.inFn))
+	m.inner.WriteTo(cw)
 }
 
 // noLog: install the interceptors, but stateless (for builders shared between jobs)
@@ -85,8 +98,15 @@ func pluginBuilder(infix map[string]int, prefix, postfix []string, stmtLog *[]st
 		pb.UseStatementInterceptor(func(p *parser.Parser, next func() ast.Statement) ast.Statement {
 			if stmtLog != &noLog {
 				*stmtLog = append(*stmtLog, p.CurrentToken.Literal)
+				return next()
 			}
-			return next()
+			// shared builder: no harness state; the parser's context answers become part of the tree
+			ctx, inFn := int(p.CurrentContext()), p.IsInFunction()
+			st := next()
+			if st == nil || reflect.ValueOf(st).IsNil() {
+				return st
+			}
+			return &ctxMark{ctx: ctx, inFn: inFn, inner: st}
 		})
 		pb.UseExpressionInterceptor(func(p *parser.Parser, next func() ast.Expression) ast.Expression {
 			return p.ParseRemainingExpression(p.ParsePrefixExpression())
@@ -150,11 +170,11 @@ func jobC() func() string {
 // granularity can be explored to a higher preemption bound).
 func Tiny() {
 	srcA, srcB, srcC, srcD, srcE = "a OP b", "x = - - y", "n BANG", "f(- -a)", "w += 1"
-	s2in = [3]string{"a OP b", "PRE x", "q BANG"}
+	s2in = [3]string{"{ a OP b }", "function f() { PRE x }", "{ { q BANG } }"}
 	s4third = "k"
 }
 
-var s2in = [3]string{"a OP b * c", "PRE x BANG; { y }", "let q = [1, 2] OP 3"}
+var s2in = [3]string{"a OP b * c; { function f() { return a } }", "PRE x BANG; { y; { z } }", "let q = [1, 2] OP 3; f(function() { { w } })"}
 var s4third = "alpha = beta + gamma"
 
 // Scenarios returns all scenarios with n jobs each (2 or 3).
